@@ -14,6 +14,7 @@ PREDS = P_IRI + [P_LIT, P_VAL]
 LITS = ["l1", "l2", "l3"]
 INTS = ["1", "2", "3", "5", "10", "12", "-4"]   # multi-digit and negative: numeric vs lexical comparison differ
 GRAPHS = [NS + "g1", NS + "g2", NS + "g3"]      # g3 is created empty
+UNKNOWN_GRAPH = NS + "g9"                        # never created by any generated request
 VARS = ["a", "b", "c", "d"]
 SCALE = 27720                                    # lcm(1..12): AVG of <= 12 integers is exact
 
@@ -47,6 +48,12 @@ def V(name):
 
 def C(lex):
     return ["c", lex]
+
+
+def dollar(text):
+    """The same request with every variable written with the $ sigil (an equivalent spelling in SPARQL)."""
+    import re
+    return re.sub(r'<[^<>\s]*>|"(?:[^"\\]|\\.)*"|\?([A-Za-z_][A-Za-z0-9_]*)', lambda m: m.group(0) if m.group(1) is None else "$" + m.group(1), text)
 
 
 def tr(t):
@@ -245,6 +252,9 @@ class Gen:
             elif k < 0.75 and self.on("graph"):
                 gname = r.choice(GRAPHS[:2] + GRAPHS)
                 name = V("g") if r.random() < 0.5 else C(gname)
+                if name[0] == "c" and r.random() < 0.12:
+                    gname = UNKNOWN_GRAPH              # a graph name nothing ever created: no solutions, and no side effect
+                    name = C(gname)
                 saved = self.ctx
                 self.ctx = gname
                 els.append({"t": "graph", "name": name, "p": self.group(depth - 1)})
@@ -393,9 +403,53 @@ class Gen:
             q["limit"] = r.randint(0, 4)
         if not sub and self.on("from") and r.random() < 0.2:
             gs = GRAPHS[:]
-            q["from"] = r.sample(gs, r.choice([0, 1, 2]))
+            q["from"] = r.sample(gs + [UNKNOWN_GRAPH], r.choice([0, 1, 2]))
             q["fromnamed"] = r.sample(gs, r.choice([0, 1, 2, 3]))
         return q
+
+
+TWIN_KINDS = ["filter-const", "filter-op", "values-rows", "graph-name", "bind-const", "bgp-const", "sub-distinct", "sub-proj", "sub-limit", "sub-order"]
+
+
+def twin_query(rng, quads, kind):
+    """SELECT * over the UNION (or join) of two groups that are identical except for ONE detail deep inside (a constant,
+    an operator, a VALUES row, a graph name, a subquery modifier).  Whatever is keyed or cached by the shape of a sub-plan
+    must still tell the two apart."""
+    dq = [q for q in quads if q[3] == "" and kind_of(q[2]) == "iri"] or [(IRIS[0], P_IRI[0], IRIS[1], "")]
+    s_, p_, o_, _g = rng.choice(dq)
+    objs = sorted({q[2] for q in quads if q[1] == p_ and q[3] == ""} | {IRIS[4]})
+    o2 = rng.choice([x for x in objs if x != o_] or [IRIS[5]])
+    base = {"t": "bgp", "tps": [[V("a"), C(p_), V("b")]]}
+
+    def sub(distinct=False, proj=("a",), order=(), limit=-1):
+        return {"t": "sub", "q": {"distinct": distinct, "star": False, "proj": [{"k": "VAR", "v": v, "as": v} for v in proj], "from": [], "fromnamed": [],
+                                  "group": [], "p": {"t": "join", "ps": [base]}, "order": [{"v": v, "d": d} for v, d in order], "limit": limit}}
+    if kind == "filter-const":
+        A, B = [base, {"t": "filter", "e": {"t": "cmp", "l": V("b"), "op": "=", "r": C(o_)}}], [base, {"t": "filter", "e": {"t": "cmp", "l": V("b"), "op": "=", "r": C(o2)}}]
+    elif kind == "filter-op":
+        A, B = [base, {"t": "filter", "e": {"t": "cmp", "l": V("b"), "op": "=", "r": C(o_)}}], [base, {"t": "filter", "e": {"t": "cmp", "l": V("b"), "op": "!=", "r": C(o_)}}]
+    elif kind == "values-rows":
+        A, B = [base, {"t": "values", "vars": ["b"], "rows": [[C(o_)]]}], [base, {"t": "values", "vars": ["b"], "rows": [[C(o2)], [C(o_)]]}]
+    elif kind == "graph-name":
+        gb = {"t": "bgp", "tps": [[V("a"), V("c"), V("b")]]}
+        A, B = [{"t": "graph", "name": C(GRAPHS[0]), "p": {"t": "join", "ps": [gb]}}], [{"t": "graph", "name": C(GRAPHS[1]), "p": {"t": "join", "ps": [gb]}}]
+    elif kind == "bind-const":
+        A, B = [base, {"t": "bind", "args": [V("b"), C("k1")], "v": "n1"}], [base, {"t": "bind", "args": [V("b"), C("k2")], "v": "n1"}]
+    elif kind == "bgp-const":
+        A, B = [{"t": "bgp", "tps": [[V("a"), C(p_), C(o_)]]}], [{"t": "bgp", "tps": [[V("a"), C(p_), C(o2)]]}]
+    elif kind == "sub-distinct":
+        A, B = [sub(False, ("b",))], [sub(True, ("b",))]
+    elif kind == "sub-proj":
+        A, B = [sub(False, ("a",))], [sub(False, ("b",))]
+    elif kind == "sub-limit":
+        A, B = [sub(False, ("a", "b"), (("a", "asc"), ("b", "asc")), 1)], [sub(False, ("a", "b"), (("a", "asc"), ("b", "asc")), 2)]
+    else:
+        A, B = [sub(False, ("a", "b"), (("a", "asc"), ("b", "asc")), 1)], [sub(False, ("a", "b"), (("a", "desc"), ("b", "desc")), 1)]
+    ga, gb_ = {"t": "join", "ps": A}, {"t": "join", "ps": B}
+    if rng.random() < 0.3:
+        ga, gb_ = gb_, ga
+    p = {"t": "join", "ps": [{"t": "union", "ps": [ga, gb_]}]}
+    return {"distinct": False, "star": True, "proj": [], "from": [], "fromnamed": [], "group": [], "order": [], "limit": -1, "p": p}
 
 
 def _all_tps(p):
